@@ -77,10 +77,15 @@ def gen_case(rng, idx):
                 custom.append((fn, fn, '%s + 1' % p.name, 'u64:%d' % (p.num + 1)))
             elif r < 0.6: fn = rng.choice(['lit', 'k2', 'a.b']); custom.append((fn, fn, '"const"', 'str:' + hx('const')))
             elif r < 0.8 and fps:
-                p = rng.choice(fps); fn = rng.choice(['dbg', 'shown', 'x.' + p.name]); custom.append((fn, fn, '?%s' % p.name, 'debug:' + hx(p.dbg)))
+                p = rng.choice(fps)
+                if rng.random() < 0.4:
+                    # the value-less shorthand `?param`: a field named like the parameter, holding its Debug rendering
+                    custom.append(('?' + p.name, p.name, None, 'debug:' + hx(p.dbg)))
+                else:
+                    fn = rng.choice(['dbg', 'shown', 'x.' + p.name]); custom.append((fn, fn, '?%s' % p.name, 'debug:' + hx(p.dbg)))
             else: fn = rng.choice(['flagged', 'k3']); custom.append((fn, fn, 'true', 'bool:1'))
         seen = set(); custom = [c for c in custom if not (c[1] in seen or seen.add(c[1]))]
-        if custom: attrs.append('fields(%s)' % ', '.join('%s = %s' % (c[0], c[2]) for c in custom))
+        if custom: attrs.append('fields(%s)' % ', '.join(('%s = %s' % (c[0], c[2])) if c[2] is not None else c[0] for c in custom))
     # async-trait style: a plain fn whose tail is `Box::pin(async move { … })`, with a statement before the tail — the attribute
     # must recognise the shape and instrument the async block (only by-value parameters: no lifetimes in the boxed future's type;
     # no ret / err, so that the pair still compiles if the shape is NOT recognised and the difference shows in the log)
